@@ -1,8 +1,13 @@
 package checks
 
 import (
+	"context"
 	"fmt"
 	"strings"
+	"sync"
+	"time"
+
+	sgbucket "github.com/couchbase/sg-bucket"
 
 	"verifharness/internal/kv"
 	"verifharness/internal/rng"
@@ -46,6 +51,62 @@ func nonInterferencePart(name string, quick, thorough int) sup.Part {
 			for ci := 0; ci < cfg.Colls; ci++ {
 				if err := s.PutViews(0, ci, kv.ViewSet(false)); err != nil {
 					c.Incon("PutDDoc failed: " + err.Error())
+					return
+				}
+			}
+		}
+		// a live feed on c0 of either bucket: what it delivers must not depend on the other collections either
+		type fev struct {
+			key  string
+			del  bool
+			exp  uint32
+			dt   uint8
+			body string
+		}
+		var fmu sync.Mutex
+		var flog [2][]fev
+		fterm := make(chan bool)
+		defer close(fterm)
+		for si, s := range []*kv.Sim{alone, busy} {
+			si := si
+			_ = s.Env.Buckets[0].Colls[0][0].StartDCPFeed(context.Background(), sgbucket.FeedArguments{ID: "noninterf", Backfill: sgbucket.FeedNoBackfill, Terminator: fterm},
+				func(e sgbucket.FeedEvent) bool {
+					fmu.Lock()
+					flog[si] = append(flog[si], fev{string(e.Key), e.Opcode == sgbucket.FeedOpDeletion, e.Expiry, e.DataType &^ sgbucket.FeedDataTypeXattr, string(e.Value)})
+					fmu.Unlock()
+					return true
+				}, nil)
+		}
+		compareFeeds := func() {
+			for _, s := range []*kv.Sim{alone, busy} {
+				_ = s.Env.Buckets[0].Colls[0][0].SetRaw("zz-sentinel", 0, nil, []byte("end"))
+			}
+			ok := false
+			for t := 0; t < 4000 && !ok; t++ {
+				fmu.Lock()
+				ok = len(flog[0]) > 0 && len(flog[1]) > 0 && flog[0][len(flog[0])-1].key == "zz-sentinel" && flog[1][len(flog[1])-1].key == "zz-sentinel"
+				fmu.Unlock()
+				if !ok {
+					time.Sleep(time.Millisecond)
+				}
+			}
+			if !ok {
+				return // a feed that starves is C08's and C16's business
+			}
+			fmu.Lock()
+			defer fmu.Unlock()
+			c.Count("feed_event_sequences_compared", 1)
+			c.Count("feed_events_compared", int64(len(flog[0])))
+			if len(flog[0]) != len(flog[1]) {
+				c.Viol([]string{"C11"}, "noninterference|feed|count", fmt.Sprintf("the live feed of collection c0 delivered %d events in a bucket whose other collections were idle, but %d in a bucket that received the same history on c0 plus operations addressed to c1/c2", len(flog[0]), len(flog[1])), map[string]any{"config": cfg})
+				return
+			}
+			for i := range flog[0] {
+				a, b := flog[0][i], flog[1][i]
+				de := int64(a.exp) - int64(b.exp)
+				// (xattr bytes embedded in the value differ by construction where they carry a CAS: only bodies without xattrs are compared)
+				if a.key != b.key || a.del != b.del || de < -3 || de > 3 || a.dt != b.dt {
+					c.Viol([]string{"C11"}, "noninterference|feed|event", fmt.Sprintf("event %d of c0's live feed is (key %q, deletion %v, expiry %d, datatype %d) in a bucket whose other collections were idle, but (key %q, deletion %v, expiry %d, datatype %d) in a bucket that received the same history on c0 plus operations addressed to c1/c2", i, a.key, a.del, a.exp, a.dt, b.key, b.del, b.exp, b.dt), map[string]any{"config": cfg})
 					return
 				}
 			}
@@ -120,6 +181,7 @@ func nonInterferencePart(name string, quick, thorough int) sup.Part {
 			}
 		}
 		compare(steps)
+		compareFeeds()
 		c.Count("noninterference_ops_on_A", int64(onA))
 		c.Count("noninterference_ops_on_others", int64(onOthers))
 		c.Cell(fmt.Sprintf("noninterference|%s|handles=%d", ifStr(cfg.Disk, "disk", "mem"), cfg.Handles))
